@@ -211,9 +211,27 @@ def runProg (inss : List String) : String :=
                      (" ".intercalate (regs.toList.map (fun x => b01 x.isCanonical))) "prog"
   | none => bad
 
+/-- `progcmp`: run the instructions, then compare the last two registers (identical semantics) -/
+def runProgCmp (inss : List String) : String :=
+  let rec go (regs : Array Flt) : List String → Option (Array Flt)
+    | [] => some regs
+    | i :: rest => (progStep regs i) >>= fun v => go (regs.push v) rest
+  match go #[] inss with
+  | some regs =>
+    if regs.size < 2 then bad else
+    let a := regs[regs.size - 2]!
+    let b := regs[regs.size - 1]!
+    if a.sem != b.sem then bad else
+    let m := s!"{showOrd (a.partialCmp b)} {b01 (a.lt b)} {b01 (a.le b)} {b01 (a.gt b)} {b01 (a.ge b)} {b01 (a.beq b)} {showFlt (a.min b)} {showFlt (a.max b)}"
+    let c := Spec.cmp a b
+    let sp := s!"{showOrd c} {b01 (c == some .lt)} {b01 (c == some .lt || c == some .eq)} {b01 (c == some .gt)} {b01 (c == some .gt || c == some .eq)} {b01 (c == some .eq)} {showFlt (Spec.min a b)} {showFlt (Spec.max a b)}"
+    out m sp (showOrd c)
+  | none => bad
+
 def handle (toks : List String) : String :=
   match toks with
   | "prog" :: inss => runProg inss
+  | "progcmp" :: inss => runProgCmp inss
   | ["nat64", op, a, b] =>
     (match a.toNat?, b.toNat? with
      | some a, some b => (match natOp true op a b with | some r => out r "-" op | none => bad)
